@@ -205,6 +205,7 @@ def normAbs (p : P) : P :=
 inductive Item where
   | path (rel : P)                          -- a path-typed value spelled `rel` inside the current config
   | sub (ref : P) (items : List Item)       -- a value that names another config file, loaded in place
+  | listFile (ref : P) (rels : List P)      -- a `List[Path]` value that names a file with one path per line (`enable_path`)
   | fail                                    -- anything that makes the parse raise here
 deriving Repr
 
@@ -219,7 +220,7 @@ structure St where
   cpd : Option P              -- the context variable `current_path_dir`
 deriving DecidableEq, Repr
 
-/-- one resolved path value -/
+/-- one resolved path value (for `sub`: the config file itself, as recorded under `__path__`) -/
 structure Resolved where
   rel : P
   abs : P
@@ -232,25 +233,40 @@ structure Res where
   st : St
 deriving DecidableEq, Repr
 
+def resolve (rel base : P) : Resolved := ⟨rel, (mkPath rel rel base).absolute, base⟩
+
 /-- directory a config file spelled `ref` stands in, seen from directory `base`
 (`os.path.dirname(Path(ref).absolute)`) -/
 def cfgDir (base ref : P) : P := dirname (mkPath ref ref base).absolute
 
 /-- `change_to_path_dir(path).__enter__`: remember the context variable and the
-working directory, set both -/
+working directory, set both (`os.chdir(os.path.abspath(path_dir))`) -/
 def enter (_s : St) (dir : P) : St := { cwd := normAbs dir, cpd := some dir }
 
 /-- the `finally:` of `change_to_path_dir`: `current_path_dir.reset(token)`,
 `os.chdir(saved)`; runs whether or not the body raised -/
 def leave (saved : St) (_inner : St) : St := { cwd := saved.cwd, cpd := saved.cpd }
 
+/-- `ActionTypeHint._check_type` on a list file: the file is found and read as
+one string (`parse_value_or_config`), which is not a list; the retry then hands
+the *original spelling* to `adapt_typehints` inside `change_to_path_dir(file)`,
+where it is resolved a second time.  It names the same file again iff it is
+absolute or has no directory part (no symlinks, and nothing else lives at the
+second location: guaranteed by the harness fixture). -/
+def listRefStable (base ref : P) : Bool :=
+  normAbs (mkPath ref ref (normAbs (cfgDir base ref))).absolute == normAbs (mkPath ref ref base).absolute
+
 mutual
 def runItem : Item → St → Res
-  | .path rel, s => ⟨true, [⟨rel, (mkPath rel rel s.cwd).absolute, s.cwd⟩], s⟩
+  | .path rel, s => ⟨true, [resolve rel s.cwd], s⟩
   | .fail, s => ⟨false, [], s⟩
+  | .listFile ref rels, s =>
+    let s' := enter s (cfgDir s.cwd ref)
+    if listRefStable s.cwd ref then ⟨true, rels.map (fun rel => resolve rel s'.cwd), leave s s'⟩
+    else ⟨false, [], leave s s'⟩
   | .sub ref items, s =>
     let r := runItems items (enter s (cfgDir s.cwd ref))
-    ⟨r.ok, r.trace, leave s r.st⟩
+    ⟨r.ok, resolve ref s.cwd :: r.trace, leave s r.st⟩
 def runItems : List Item → St → Res
   | [], s => ⟨true, [], s⟩
   | i :: rest, s =>
@@ -267,9 +283,10 @@ def runLoad (l : Load) (s : St) : Res := runItem (.sub l.ref l.items) s
 directory of its innermost enclosing config file; no state is threaded -/
 mutual
 def specItem : P → Item → List Resolved
-  | base, .path rel => [⟨rel, (mkPath rel rel base).absolute, base⟩]
+  | base, .path rel => [resolve rel base]
   | _, .fail => []
-  | base, .sub ref items => specItems (normAbs (cfgDir base ref)) items
+  | base, .listFile ref rels => rels.map (fun rel => resolve rel (normAbs (cfgDir base ref)))
+  | base, .sub ref items => resolve ref base :: specItems (normAbs (cfgDir base ref)) items
 def specItems : P → List Item → List Resolved
   | _, [] => []
   | base, i :: rest => specItem base i ++ specItems base rest
@@ -279,10 +296,23 @@ mutual
 def noFailItem : Item → Bool
   | .path _ => true
   | .fail => false
+  | .listFile _ _ => true
   | .sub _ items => noFailItems items
 def noFailItems : List Item → Bool
   | [] => true
   | i :: rest => noFailItem i && noFailItems rest
+end
+
+/-! every list file of the program is named by a spelling that survives the second resolution -/
+mutual
+def stableItem : P → Item → Bool
+  | _, .path _ => true
+  | _, .fail => true
+  | base, .listFile ref _ => listRefStable base ref
+  | base, .sub ref items => stableItems (normAbs (cfgDir base ref)) items
+def stableItems : P → List Item → Bool
+  | _, [] => true
+  | base, i :: rest => stableItem base i && stableItems base rest
 end
 
 end Jap.PathMode
